@@ -3,12 +3,10 @@ Model of regex.rs: the position-numbered regular expression built by `do_from_ex
 `nullable` / `firstpos` / `lastpos` / `followpos` (Dragon book 3.9.5).
 
 Representation.  The arena of `RegexNode`s becomes a tree.  `Optional e` is `Or[x, Epsilon]` as in
-the code.  `Many1 e` is `Cat[x, Star(x)]` in the code with the *same* arena node `x` in both
-places (its positions occur once in the position table); as a tree that is the constructor
-`plus x`, whose nullable/first/last/follow below are what the code computes for `Cat[x, Star(x)]`:
+the code.  `Many1 e` is `RegexNode::Plus(x)` (since the repair of the exponential traversal; it was
+`Cat[x, Star(x)]` with one shared arena node before) = the constructor `plus x`:
   nullable = nullable x, first = first x, last = last x,
-  follow = follow x ∪ last x × first x      (the `Star` arm adds last×first, the `Cat` arm adds
-                                             last x × first (Star x) = the same pairs).
+  follow = follow x ∪ last x × first x.
 The n-ary `Cat`/`Or` loops are cons-recursions over the child list.
 -/
 import Complgen.Model.Syntax
@@ -144,13 +142,13 @@ def positionsL : RxL → List Nat
 end
 
 mutual
-/-- the arena tree as `vh` prints it (`plus x` prints as the code's `Cat[x, Star(x)]`) -/
+/-- the arena tree as `vh` prints it (`plus x` is `RegexNode::Plus`) -/
 def text : Rx → String
   | .eps => "E "
   | .sym p => s!"P {p} "
   | .cat cs => s!"K {cs.length} " ++ textL cs
   | .or cs => s!"U {cs.length} " ++ textL cs
-  | .plus c => "K 2 " ++ text c ++ "R " ++ text c
+  | .plus c => "Q " ++ text c
 def textL : RxL → String
   | .nil => ""
   | .cons c cs => text c ++ textL cs
